@@ -64,6 +64,8 @@ func list(m hx.M, k string) []interface{} {
 }
 
 type run struct {
+	leaked bool      // the inbound gauge did not return to zero at the end of the trace
+	trace  *hx.Trace
 	tr    int64
 	epoch int64 // absolute ms of relative time 0
 	open  map[int64]*base.SentinelEntry
@@ -156,7 +158,10 @@ func (r *run) finish() {
 		e.Exit()
 	}
 	if c := stat.InboundNode().CurrentConcurrency(); c != 0 {
-		hx.Fatal("trace %d: inbound in-flight gauge is %d after every entry was exited", r.tr, c)
+		// the library's inbound in-flight count is off although every entry of the trace has been exited: an observable
+		// (judged by SystemGate_Trace!TEnd), and the end of this driver run - the gauge is shared by the whole process
+		r.leaked = true
+		r.trace.Emit(hx.M{"op": "end", "gauge": int64(c)})
 	}
 }
 
@@ -182,9 +187,12 @@ func main() {
 		switch op {
 		case "new":
 			r.finish()
+			if r != nil && r.leaked {
+				return // (deferred: the trace is flushed and closed)
+			}
 			// next epoch: a whole second, more than 20 s after everything that happened so far
 			epoch := (clk.NowMs()/1000 + 22) * 1000
-			r = &run{tr: hx.Int(s, "tr"), epoch: epoch, open: map[int64]*base.SentinelEntry{}, done: map[int64]*base.SentinelEntry{}}
+			r = &run{trace: tr, tr: hx.Int(s, "tr"), epoch: epoch, open: map[int64]*base.SentinelEntry{}, done: map[int64]*base.SentinelEntry{}}
 			t0 := hx.Int(s, "t")
 			clk.SetMs(epoch + t0)
 			system_metric.SetSystemLoad(system_metric.NotRetrievedLoadValue)
